@@ -33,6 +33,7 @@ func main() {
 	expect := flag.String("expect", "", "self-test: obligation-key globs (|| separated) one of which must newly fail; empty = any new failure")
 	selfOut := flag.String("selftest-out", "", "self-test: append the result of this variant (JSON line) to this file")
 	selfIn := flag.String("selftest-in", "", "thorough: merge self-test results from this file into the evidence")
+	genGuards := flag.Bool("gen-guards", false, "maintenance: write the guarded-by reference table (guards.json) from the current tree")
 	genErrors := flag.Bool("gen-errors", false, "maintenance: write the error-report reference table (errors.json) from the current tree")
 	genNames := flag.Bool("gen-names", false, "maintenance: write the frozen parameter/local name table (names.json) from the current tree")
 	flag.Parse()
@@ -153,6 +154,15 @@ func main() {
 	if err != nil {
 		fmt.Fprintln(os.Stderr, "lkcheck: load failed:", err)
 		os.Exit(2)
+	}
+	if *genGuards {
+		n, err := props.GenGuardTable(p, *verif)
+		if err != nil {
+			fmt.Fprintln(os.Stderr, "lkcheck:", err)
+			os.Exit(2)
+		}
+		fmt.Printf("guards.json written (%d guarded fields)\n", n)
+		return
 	}
 	if *genErrors {
 		n, err := props.GenErrorTable(p, *verif)
